@@ -86,6 +86,13 @@ impl PreSharedKey {
 
 fn parse_hex_key(s: &str) -> Result<[u8; KEY_SIZE], KeyParseError> {
     if s.len() == KEY_SIZE * 2 {
+        // A non-ASCII character is not a hex digit; rejecting it here also keeps the
+        // byte-indexed slicing below on character boundaries.
+        if let Some(c) = s.chars().find(|c| !c.is_ascii()) {
+            let err = u8::from_str_radix(c.encode_utf8(&mut [0u8; 4]), 16)
+                .expect_err("a non-ASCII character is never a hex digit");
+            return Err(KeyParseError::InvalidKeyChar(err));
+        }
         let mut r = [0u8; KEY_SIZE];
         for i in 0..KEY_SIZE {
             r[i] = u8::from_str_radix(&s[i * 2..i * 2 + 2], 16)
